@@ -39,7 +39,14 @@ def read_entry_points():
 
 # synthetic conventions (module level so that bound datasets can be pickled) ------------------
 def _make_syn():
+    from emsarray.conventions._base import Convention
     from emsarray.conventions.grid import CFGrid1D
+
+    def _stub(self, *args, **kwargs):
+        raise NotImplementedError('synthetic convention')
+    stubs = {name: _stub for name in ('ravel_index', 'wind_index', 'get_grid_kind', 'ravel', 'wind', '_make_polygons',
+                                      'selector_for_indexes', 'get_all_geometry_names', 'make_clip_mask', 'apply_clip_mask')}
+    stubs.update({'grid_kinds': frozenset(), 'default_grid_kind': None, 'grid_size': {}})
     classes = []
     for k in range(4):
         marker = f'syn{k}'
@@ -48,7 +55,11 @@ def _make_syn():
             v = dataset.attrs.get(cls.marker)
             return None if v is None else int(v)
         ns = {'marker': marker, 'check_dataset': classmethod(check_dataset), '__module__': __name__}
-        cls = type(f'Syn{k}', (CFGrid1D,), ns)
+        # two in-house conventions extend a built-in one, two are written from scratch on the abstract base class
+        base = CFGrid1D if k % 2 == 0 else Convention
+        if base is Convention:
+            ns.update(stubs)
+        cls = type(f'Syn{k}', (base,), ns)
         globals()[f'Syn{k}'] = cls
         classes.append(cls)
     return classes
